@@ -24,7 +24,7 @@ EXTENDS Integers, Sequences, FiniteSets, TLC, Json
 CONSTANTS K,          \* the "generic" initial value
           W,          \* window bound on |value|
           Menus,      \* sequence of menu sizes ("full" | "small"), one per programme step; its length is the programme length
-          Inits,      \* "full": initial values {0, 1, -1, 2, -2, K}; "small": {0, 1, -1, K}
+          Inits,      \* "full": initial values {0, 1, -1, 2, -2, K}; "mid": {0, 1, -1, 2, K}; "small": {0, 1, -1, K}
           Family      \* "group" | "pair"
 MaxOps == Len(Menus)
 MenusFS == <<"full", "small">>
@@ -39,8 +39,6 @@ ScalarVal(c) == CASE c = "z0" -> 0 [] c = "one" -> 1 [] c = "two" -> 2 [] c = "t
                   [] c = "ordw" -> 0 [] c = "om1w" -> -1       \* order, order - 1 through the wide reduction
                   [] c = "op2w" -> 2 [] c = "kk" -> K
 Scalars == {"z0", "one", "two", "three", "m1", "m2", "ordw", "om1w", "op2w", "kk"}
-MsmScalars == {"one", "m1", "two"}                 \* scalars used in longer multi-scalar products
-MsmScalarsX == {"z0", "ordw", "om1w"}              \* extra scalars for length-1 products
 
 (* ------------------------------ operations on logs ------------------------------ *)
 Abs(v) == IF v < 0 THEN -v ELSE v
@@ -68,28 +66,29 @@ PredOps == {"eq", "isid"}
 VARIABLES regs, step, g1, g2, gt
 vars == <<regs, step, g1, g2, gt>>
 
-InitVals == IF Inits = "full" THEN {0, 1, -1, 2, -2, K} ELSE {0, 1, -1, K}
+InitVals == CASE Inits = "full" -> {0, 1, -1, 2, -2, K} [] Inits = "mid" -> {0, 1, -1, 2, K} [] Inits = "small" -> {0, 1, -1, K}
 R3 == 1..3
-Terms1 == {<<s, a>> : s \in MsmScalars \cup MsmScalarsX, a \in R3}
-Terms == {<<s, a>> : s \in MsmScalars, a \in R3}
-\* the menu of a step: (op, args)
+\* The menu of a step: (op, args).  Scalar multiplications dominate the cost of a replay (a full-length ladder each),
+\* so the multi-scalar shapes are a fixed selection: every length 1..3, 8 and 9 (the windowed path starts at 8 terms),
+\* repeated registers, zero / order / order-1 scalars, cancelling pairs.
+Long9 == <<<<"one", 1>>, <<"m1", 2>>, <<"two", 3>>, <<"three", 1>>, <<"m2", 2>>, <<"kk", 3>>, <<"om1w", 1>>, <<"ordw", 2>>, <<"op2w", 3>>>>
+Long8 == <<<<"two", 3>>, <<"m1", 3>>, <<"m1", 3>>, <<"one", 1>>, <<"one", 2>>, <<"z0", 1>>, <<"m2", 2>>, <<"kk", 1>>>>
+MsmShapes == {<<<<s, a>>>> : s \in {"one", "m1", "ordw", "z0"}, a \in {1, 3}}
+               \cup {<<<<"one", 1>>, <<"m1", 3>>>>, <<<<"two", 2>>, <<"one", 3>>>>, <<<<"one", 3>>, <<"om1w", 3>>>>, <<<<"m1", 1>>, <<"m1", 2>>>>,
+                     <<<<"kk", 2>>, <<"two", 2>>>>, <<<<"z0", 1>>, <<"one", 2>>>>}
+               \cup {<<<<"one", 1>>, <<"one", 2>>, <<"m1", 3>>>>, <<<<"two", 3>>, <<"m1", 3>>, <<"m1", 3>>>>, Long8, Long9}
 FullMenu ==
   {<<"add", <<a, b>>>> : a \in R3, b \in R3} \cup {<<"sub", <<a, b>>>> : a \in R3, b \in R3}
     \cup {<<"dbl", <<a>>>> : a \in R3} \cup {<<"neg", <<a>>>> : a \in R3}
     \cup {<<"smul", <<a, s>>>> : a \in R3, s \in Scalars}
     \cup {<<"sbase", <<s>>>> : s \in Scalars}
-    \cup {<<m, <<>>>> : m \in {"msm", "msmu"}}
-    \cup {<<m, <<t>>>> : m \in {"msm", "msmu"}, t \in Terms1}
-    \cup {<<m, <<t, u>>>> : m \in {"msm", "msmu"}, t \in Terms, u \in Terms}
-    \cup {<<m, <<<<"one", 1>>, <<s, 2>>, <<"m1", b>>>>>> : m \in {"msm", "msmu"}, s \in MsmScalars, b \in R3}
+    \cup {<<m, t>> : m \in {"msm", "msmu"}, t \in MsmShapes}
     \cup {<<"eq", <<a, b>>>> : a \in R3, b \in R3} \cup {<<"isid", <<a>>>> : a \in R3}
 SmallMenu ==
   {<<"add", <<a, b>>>> : a \in R3, b \in R3} \cup {<<"sub", <<a, b>>>> : a \in R3, b \in R3}
     \cup {<<"dbl", <<a>>>> : a \in R3} \cup {<<"neg", <<a>>>> : a \in R3}
-    \cup {<<"smul", <<a, s>>>> : a \in R3, s \in {"z0", "two", "m1", "ordw"}}
-    \cup {<<m, <<<<"one", 1>>, <<"m1", 3>>>>>> : m \in {"msm", "msmu"}}
-    \cup {<<m, <<<<"two", 2>>, <<"one", 3>>>>>> : m \in {"msm", "msmu"}}
-    \cup {<<"msm", <<<<"one", 1>>, <<"one", 2>>, <<"m1", 3>>>>>>}
+    \cup {<<"smul", <<a, s>>>> : a \in {1, 3}, s \in {"m1", "two"}}
+    \cup {<<"msm", <<<<"one", 1>>, <<"m1", 3>>>>>>, <<"msmu", <<<<"two", 2>>, <<"one", 3>>>>>>}
     \cup {<<"eq", <<a, b>>>> : a \in R3, b \in R3} \cup {<<"isid", <<a>>>> : a \in R3}
 Menu(size) == IF size = "full" THEN FullMenu ELSE SmallMenu
 
